@@ -242,8 +242,7 @@ namespace c02
     // insertion sort, i.e. stops being stable. The value of entry i is i, so a wrong survivor is visible.
     template <class Map, size_t... I> Map *make_long_il(const std::vector<std::pair<int, int>> &v, std::index_sequence<I...>)
     {
-        std::initializer_list<std::pair<int, int>> il = {v[I]...};
-        return new Map(il);
+        return new Map{{v[I].first, v[I].second}...}; // braced at the call site: what std::map itself accepts
     }
     inline int il_key(int pattern, int i, int len)
     {
@@ -292,5 +291,152 @@ namespace c02
         large_map_lookup(variant, op, *m, r, 45);
         delete m;
         mc::outcome(mc::fmt("%d/%d/%zu", len, pat, r.size()));
+    }
+
+    // ------------------------------------------------------------------ a key whose == is finer than its <
+    // Records ordered by id only; == also looks at the tag. With the DEFAULT comparator (std::less<Rec>) a map
+    // treats {0,a} and {0,b} as the same key, whatever operator== says.
+    struct Rec
+    {
+        int id, tag;
+        friend bool operator<(const Rec &a, const Rec &b) { return a.id < b.id; }
+        friend bool operator==(const Rec &a, const Rec &b) { return a.id == b.id && a.tag == b.tag; }
+        friend bool operator!=(const Rec &a, const Rec &b) { return !(a == b); }
+    };
+    struct NoStdRec
+    {
+        void insert(Rec, int) {}
+        void set(Rec, int) {}
+        void index(Rec) {}
+        bool agrees(const std::vector<std::pair<Rec, int>> &) const { return true; }
+    };
+    template <class Map, class StdRef> void rec_key_body(const string &variant)
+    {
+        static const Rec keys[5] = {{0, 0}, {0, 1}, {1, 0}, {1, 1}, {2, 0}}; // the last one is never inserted
+        const int NOP = 5, NKEY = 4, STEP = NOP * NKEY;
+        int c = mc::choose(STEP * STEP * STEP);
+        int steps[3] = {c % STEP, c / STEP % STEP, c / STEP / STEP};
+        static const char *on[] = {"insert", "emplace", "index_write", "index_read", "at_write"};
+        mc::describe("%s: keys ordered by id only (== also compares the tag), ops %s(%d) %s(%d) %s(%d)", variant.c_str(), on[steps[0] / NKEY], steps[0] % NKEY,
+                     on[steps[1] / NKEY], steps[1] % NKEY, on[steps[2] / NKEY], steps[2] % NKEY);
+        Map m;
+        std::vector<std::pair<Rec, int>> ref; // first key of an id stays
+        StdRef sref;
+        auto rfind = [&](const Rec &k) -> std::pair<Rec, int> * {
+            for (auto &e : ref)
+                if (!(e.first < k) && !(k < e.first))
+                    return &e;
+            return nullptr;
+        };
+        for (int st = 0; st < 3; st++)
+        {
+            int op = steps[st] / NKEY;
+            Rec k = keys[steps[st] % NKEY];
+            int v = 10 * (st + 1) + op;
+            string o = string("record_key.") + on[op];
+            mc::crash_context("C02.%s.%s.crash", variant.c_str(), o.c_str());
+            auto *e = rfind(k);
+            if (e && e->first != k)
+                mc::nontrivial(); // an equivalent key that is not ==
+            switch (op)
+            {
+            case 0:
+                m.insert(typename Map::value_type(k, v));
+                if (!e)
+                    ref.push_back({k, v});
+                sref.insert(k, v);
+                break;
+            case 1:
+            {
+                auto r = m.emplace(k, v);
+                if (r.second != (e == nullptr))
+                {
+                    fbad(variant, o, "return_value", mc::fmt("emplace({%d,%d},..) returned inserted=%d, std::map %d", k.id, k.tag, (int)r.second, (int)(e == nullptr)));
+                    return;
+                }
+                if (!e)
+                    ref.push_back({k, v});
+                sref.insert(k, v);
+                break;
+            }
+            case 2:
+                m[k] = v;
+                if (e)
+                    e->second = v;
+                else
+                    ref.push_back({k, v});
+                sref.set(k, v);
+                break;
+            case 3:
+            {
+                int got = m[k];
+                if (!e)
+                    ref.push_back({k, 0});
+                sref.index(k);
+                if (got != (e ? e->second : 0))
+                {
+                    fbad(variant, o, "value", mc::fmt("operator[]({%d,%d}) returned %d, std::map %d", k.id, k.tag, got, e ? e->second : 0));
+                    return;
+                }
+                break;
+            }
+            case 4:
+                if (!e)
+                    continue; // the throwing case is covered elsewhere
+                try
+                {
+                    m.at(k) = v;
+                }
+                catch (const std::out_of_range &)
+                {
+                    fbad(variant, o, "threw_for_present_key", mc::fmt("at({%d,%d}) threw although an equivalent key is present", k.id, k.tag));
+                    return;
+                }
+                e->second = v;
+                sref.set(k, v);
+                break;
+            }
+            if (!sref.agrees(ref))
+                mc::harness_error("record-key reference and std::map disagree in %s", variant.c_str());
+            const Map &cm = m;
+            if ((size_t)m.size() != ref.size())
+            {
+                fbad(variant, o, "size", mc::fmt("size()=%zu, std::map has %zu", (size_t)m.size(), ref.size()));
+                return;
+            }
+            for (const Rec &q : keys)
+            {
+                auto *w = rfind(q);
+                if (cm.count(q) != (w ? 1u : 0u))
+                {
+                    fbad(variant, o, "count", mc::fmt("count({%d,%d})=%zu, std::map says %d", q.id, q.tag, (size_t)cm.count(q), w ? 1 : 0));
+                    return;
+                }
+                auto it = m.find(q);
+                bool f = it != m.end();
+                if (f != (w != nullptr) || (f && (it->first != w->first || it->second != w->second)))
+                {
+                    fbad(variant, o, "find", mc::fmt("find({%d,%d}): found=%d, std::map found=%d", q.id, q.tag, (int)f, (int)(w != nullptr)));
+                    return;
+                }
+                if (w)
+                {
+                    try
+                    {
+                        if (cm.at(q) != w->second || cm[q] != w->second)
+                        {
+                            fbad(variant, o, "at", mc::fmt("at({%d,%d})=%d, std::map %d", q.id, q.tag, cm.at(q), w->second));
+                            return;
+                        }
+                    }
+                    catch (const std::out_of_range &)
+                    {
+                        fbad(variant, o, "at", mc::fmt("at({%d,%d}) threw, std::map holds an equivalent key", q.id, q.tag));
+                        return;
+                    }
+                }
+            }
+        }
+        mc::outcome(mc::fmt("%zu", ref.size()));
     }
 }
